@@ -415,6 +415,11 @@ Definition pinned_flags : cfgflags :=
 Definition no_regroup (fl : cfgflags) : cfgflags :=
   with_ops fl (map (fun e => (fst e, (fst (snd e), false))) (f_ops fl)).
 
+(* the closure-literal rule switched off (a generator without closure handler) *)
+Definition no_closure_fold (fl : cfgflags) : cfgflags :=
+  mkflags (f_ops fl) (f_unary fl) (f_static fl) (f_meth_impure fl) (f_tobool fl) (f_list fl) (f_map fl)
+          false (f_method fl) (f_fieldcheck fl).
+
 (* ---------- what the model cannot follow ---------- *)
 
 (* true when the implementation may fold a node that the model leaves alone because the built-in is
